@@ -32,8 +32,10 @@ mod verif_enum_actions {
     fn three_files(t: &Path) -> Vec<Vec<u8>> {
         let mut chosen: Vec<&[u8]> = Vec::new();
         if deep() {
-            // thorough: every set of three distinct names
-            while chosen.len() < 3 { let c = NAMES[pick(NAMES.len())]; if chosen.contains(&c) { kani::assume(false); } chosen.push(c); }
+            // thorough: every set of three distinct names (56 sets)
+            let (i, j, k) = (pick(8), pick(8), pick(8));
+            if !(i < j && j < k) { kani::assume(false); }
+            chosen = vec![NAMES[i], NAMES[j], NAMES[k]];
         } else {
             let k = pick(3);
             chosen = [[NAMES[0], NAMES[1], NAMES[2]], [NAMES[3], NAMES[4], NAMES[5]], [NAMES[6], NAMES[7], NAMES[0]]][k].to_vec();
